@@ -86,6 +86,8 @@ func (w *world) dispatch(p vhlib.ParsedLine) {
 		w.doRenew3(p)
 	case "mine":
 		w.doMine(p)
+	case "setprices":
+		w.doSetPrices(p)
 	}
 }
 
@@ -426,8 +428,28 @@ func (g *gen) stepV1() {
 	case x < 96:
 		c := g.pickContract()
 		w.dispatch(mkOp("renew3", "c", fmt.Sprint(c), "ov", pickOver(r, g.tr, g.vrp(c)), "rp", cs(sc.Mul64(uint64(50+r.Intn(500)))), "col", cs(sc.Mul64(uint64(r.Intn(300)))), "ext", fmt.Sprint(r.Intn(30))))
-	default:
+	case x < 98:
 		w.dispatch(mkOp("mine", "n", fmt.Sprint(1+r.Intn(2))))
+	default:
+		// the operator changes the prices while a price table is registered: the following RHP3 RPCs
+		// still run (and must be accounted) under the table's prices
+		pr := pickPrices(r)
+		if r.Chance(1, 2) {
+			// only the contract price moves
+			pr = w.pr
+			pr.contract = vhlib.Pick(r, types.NewCurrency64(uint64(r.Intn(1000))), sc.Div64(uint64(1+r.Intn(20))), pr.contract.Add(types.NewCurrency64(1)))
+		}
+		kv := []string{}
+		for _, f := range strings.Fields(pr.String()) {
+			e := strings.SplitN(f, "=", 2)
+			kv = append(kv, e[0], e[1])
+		}
+		w.dispatch(mkOp("setprices", kv...))
+		if w.havePT && r.Chance(1, 2) {
+			// ... and the renter renews right away under the table it registered before the change
+			c := g.pickContract()
+			w.dispatch(mkOp("renew3", "c", fmt.Sprint(c), "ov", pickOver(r, g.tr, g.vrp(c)), "rp", cs(sc.Mul64(uint64(50+r.Intn(500)))), "col", cs(sc.Mul64(uint64(r.Intn(300)))), "ext", fmt.Sprint(r.Intn(30))))
+		}
 	}
 }
 
